@@ -92,6 +92,20 @@ MUTANTS = {
  'C05-last-molecule-dropped': ('C05', MG, '            for mol in self.system:\n                name = mol.name', '            for mol in list(self.system)[:-1] or list(self.system):\n                name = mol.name'),
  'C05-resids-from-template': ('C05', XM, '        new_mol.resids = refmolecule.resids\n', ''),
  'C05-incomplete-species-written': ('C05', MG, '                if name not in complete_correspondence:\n                    continue', '                if name not in complete_correspondence:\n                    for atom in mol:\n                        line = atom.gro_line()\n                        line[3] = atom_index\n                        atom_index += 1\n                        fgro.writeline(line)\n                    continue'),
+ 'C20-known-not-preloaded': ('C20', CLI, 'system = System(reference_coordinates, *[files[0] for files in known_files])', 'system = System(reference_coordinates)'),
+ 'C20-exclude-ignored': ('C20', CLI, '                if (args.exclude is not None) and (molecule_name in args.exclude):', '                if False:'),
+ 'C20-scale-not-forwarded': ('C20', CLI, 'manager.calculate_exchange_maps(scale_factor=scale)', 'manager.calculate_exchange_maps()'),
+ 'C20-outfile-ignored': ('C20', CLI, '        out_path = outfile\n', '        out_path = os.path.join(folder, f"mapped_{basename}")\n'),
+ 'C20-default-name-in-cwd': ('C20', CLI, 'out_path = os.path.join(folder, f"mapped_{basename}")', 'out_path = f"mapped_{basename}"'),
+ 'C20-first-coordinate-wins': ('C20', CLI, '''                try:
+                    Molecule.from_files(coordinate_file, molecule_info["top_AA"])
+                except OSError:
+                    pass
+                else:
+                    added_molecues[molecule_name]["coor_AA"] = coordinate_file''', '''                added_molecues[molecule_name]["coor_AA"] = coordinate_file'''),
+ 'C20-aa-top-by-order': ('C20', CLI, '        if (filename not in used_files) and (molecule.name in added_molecues):', '        if (filename not in used_files) and added_molecues:\n            molecule = type("M", (), {"name": sorted(added_molecues)[0]})()\n            if "top_AA" in added_molecues[molecule.name]:\n                continue'),
+ 'C20-end-swapped-between-species': ('C20', CLI, '        end_molecules[name] = Molecule.from_files(specie[1], specie[2])', '        end_molecules[name] = Molecule.from_files(species[0][1], species[0][2])'),
+ 'C20-unseeded': ('C20', CLI, '    manager.align_molecules()\n', '    import numpy as _np\n    _np.random.seed()\n    manager.align_molecules()\n'),
 }
 
 
